@@ -1,8 +1,8 @@
 #!/bin/bash
-# tools/seeds_regress.sh [tier]  - for every stored seeded change: apply it to the repository
+# tools/seeds_regress.sh [tier] [lane] [lanes]  - for every stored seeded change (or every <lanes>-th one, offset <lane>): apply it to the repository
 # (WALLEYE_REPO, default /repo), run the check of its own property, expect exit 1 with a VIOLATION
 # line, revert. Prints one line per seed. (In a `vp run --with-repo` snapshot: WALLEYE_REPO=$VP_RUN_REPO.)
-tier=${1:-quick}
+tier=${1:-quick}; lane=${2:-0}; lanes=${3:-1}; idx=0
 cd "$(dirname "$0")/.." || exit 2
 R=${WALLEYE_REPO:-/repo}
 mkdir -p .work
@@ -10,6 +10,7 @@ git -C $R status --short | grep -q . && { echo "$R not clean"; exit 2; }
 miss=0
 for d in seeded/*/; do
   name=$(basename $d)
+  idx=$((idx+1)); [ $((idx % lanes)) -eq $lane ] || continue
   prop=$(python3 -c "import json;print(json.load(open('$d/meta.json'))['property'])")
   if ! git -C $R apply $PWD/$d/patch.diff 2>/dev/null; then echo "$name: PATCH DOES NOT APPLY"; miss=$((miss+1)); continue; fi
   ./bin/check $prop $tier > .work/regress-$name.log 2>&1; rc=$?
